@@ -331,10 +331,16 @@ func (sc *Script) Query(pos int, negGoal Term, wantModel bool) string {
 	b.WriteString("(set-option :produce-models true)\n")
 	b.WriteString("(set-logic ALL)\n")
 	for _, d := range sc.decls {
+		if wantModel {
+			d = dropQuantifiedAsserts(d)
+		}
 		b.WriteString(d)
 		b.WriteString("\n")
 	}
 	for _, c := range sc.cmds[:pos] {
+		if wantModel && strings.HasPrefix(c, "(assert ") && (strings.Contains(c, "(forall ") || strings.Contains(c, "(exists ")) {
+			continue
+		}
 		b.WriteString(c)
 		b.WriteString("\n")
 	}
@@ -368,6 +374,9 @@ var solvers = []solverSpec{
 	}},
 	{"cvc5", func(f string, t time.Duration) []string {
 		return []string{"cvc5", "--produce-models", fmt.Sprintf("--tlimit=%d", t.Milliseconds()), f}
+	}},
+	{"cvc5-enum", func(f string, t time.Duration) []string {
+		return []string{"cvc5", "--produce-models", "--enum-inst", fmt.Sprintf("--tlimit=%d", t.Milliseconds()), f}
 	}},
 }
 
@@ -559,4 +568,21 @@ func splitTop(s string) []string {
 		}
 	}
 	return out
+}
+
+// dropQuantifiedAsserts removes top-level (assert ...) commands that contain a
+// quantifier (relaxed query used only to obtain counterexample candidates,
+// which are then confirmed by replay on the real code).
+func dropQuantifiedAsserts(d string) string {
+	if !strings.Contains(d, "(forall ") && !strings.Contains(d, "(exists ") {
+		return d
+	}
+	var out []string
+	for _, e := range splitTop(d) {
+		if strings.HasPrefix(e, "(assert ") && (strings.Contains(e, "(forall ") || strings.Contains(e, "(exists ")) {
+			continue
+		}
+		out = append(out, e)
+	}
+	return strings.Join(out, "\n")
 }
